@@ -117,6 +117,20 @@ def parallel_map(fn, jobs, deadline=None, nproc=None):
 
 
 # ------------------------------------------------------------------ explore
+CURRENT_PROP = [None]
+
+
+def known_matcher(prop):
+    known = load_known(prop)
+    if not known:
+        return None
+
+    def f(v):
+        k = match_known(known, v)
+        return k['what'] if k else None
+    return f
+
+
 def explore_job(job, deadline):
     """job = (scenario, bound, per-scenario seconds, n_audit)."""
     from mc import explore
@@ -124,7 +138,8 @@ def explore_job(job, deadline):
     dl = time.time() + secs if secs else None
     if deadline:
         dl = min(dl, deadline) if dl else deadline
-    ex = explore.Explorer(scn, bound=bound, deadline=dl)
+    ex = explore.Explorer(scn, bound=bound, deadline=dl,
+                          known=known_matcher(CURRENT_PROP[0]))
     res = ex.run()
     audit_ok, audit_bad = 0, []
     for path, hashes in res.samples[:n_audit]:
@@ -138,6 +153,7 @@ def explore_job(job, deadline):
     return {'name': scn.name, 'stats': dict(res.stats),
             'terminals': res.terminals, 'violations': res.violations,
             'samples': [p for p, _ in res.samples[:1]],
+            'known': res.known,
             'error': res.error, 'audit_ok': audit_ok, 'audit_bad': audit_bad,
             'bound': bound}
 
@@ -146,6 +162,7 @@ class Report(object):
     """Accumulates what a check covered and writes the evidence file."""
 
     def __init__(self, prop, tier, level='model_checking'):
+        CURRENT_PROP[0] = prop
         self.prop = prop
         self.tier = tier
         self.level = level
@@ -208,6 +225,11 @@ class Report(object):
             for v in r['violations']:
                 v['_scn'] = scn
                 self.violations.append(v)
+            for what, v in r.get('known', {}).items():
+                v['_scn'] = scn
+                self.violations.append(v)
+            self.stats['known_finding_hits'] += st.get(
+                'known_finding_hits', 0)
 
     # -------------------------------------------------------------- finish
     def finish(self, rule, confirm=True):
